@@ -313,6 +313,74 @@ def layered_part(ck, tier, rng):
     ck.assumptions.append("layered model: io_simple (tidal mantle, non-tidal core) around jupiter/sol, two value ids per input, mantle temperature {1500, 1650} K or strength set directly; fresh reference built twice (thermal state first / orbital state first), both must agree")
 
 
+STELLAR_ASFOUND = [("moon_asfound_physics", "TypeOK"), ("moon_asfound_base", "SettersStore"), ("star_asfound_physics", "TypeOK"), ("star_asfound_stale", "C13_InsolationFresh")]
+
+
+def stellar_part(ck, tier, seed):
+    """specs/StellarOrbit.tla: stellar distance / eccentricity -> insolation heating -> surface temperature, for a moon system
+    (the stellar orbit belongs to the tidal host) and with the star as host (the world's own orbit is the stellar orbit)."""
+    for name, inv in STELLAR_ASFOUND:
+        rn = run_tlc("StellarOrbit", "StellarOrbit_%s.cfg" % name, expect_violation=True, timeout=300, workers=2)
+        if rn.ok or rn.violated != inv:
+            raise MachineryError("StellarOrbit_%s (cascade as found): expected %s to be violated, got %s" % (name, inv, rn.violated))
+        ck.notes.setdefault("negative_controls_model", {})["StellarOrbit_" + name] = "%s violated" % inv
+    groups = []
+    nb = 14 if tier == "quick" else 150
+    for cfg, shapes in (("moon", [("moon", "scalar"), ("moon_ga", "array"), ("moon_ga", "scalar")]), ("star", [("star", "scalar"), ("star", "array"), ("star_layered", "scalar")])):
+        r = run_tlc("StellarOrbit", "StellarOrbit_%s.cfg" % cfg, coverage=True, timeout=300, workers=4)
+        ck.add_tlc(r, "StellarOrbit (%s): stellar orbit -> insolation -> surface temperature (complete graph)" % cfg)
+        if not r.ok:
+            ck.violation({"clause": "stellar_model", "invariant": r.violated}, "TLC: %s violated on StellarOrbit_%s" % (r.violated, cfg), {"trace": [str(t)[:1500] for t in (r.trace or [])]})
+            continue
+        zero = [a for a, (d, t) in r.coverage.items() if t == 0]
+        if zero:
+            raise MachineryError("vacuity: StellarOrbit actions never taken: %s" % zero)
+        for k, (shape, form) in enumerate(shapes):
+            wd = scratch("sosim")
+            os.makedirs(os.path.join(wd, "sim"))
+            run_tlc("StellarOrbit", "StellarOrbit_%s.cfg" % cfg, workdir=wd, workers=1, timeout=300, depth=10,
+                    simulate="file=%s,num=%d" % (os.path.join(wd, "sim", "b"), nb), seed=seed * 7 + k + 1)
+            behs = []
+            for f in sorted(os.listdir(os.path.join(wd, "sim"))):
+                b = tlaval.parse_sim_file(os.path.join(wd, "sim", f))
+                if b:
+                    behs.append([[list(st["last"]), {x: st[x] for x in ("wa", "we", "sd", "se", "ins")}] for _a, _g, st in b])
+            if not behs:
+                raise MachineryError("no StellarOrbit behaviours")
+            groups.append({"shape": shape, "form": form, "behaviours": behs})
+    if not groups:
+        return
+
+    def drive(grps, sabotage=False):
+        out = scratch("sojob")
+        jf = os.path.join(out, "job.json")
+        json.dump({"groups": grps, "sabotage": sabotage}, open(jf, "w"))
+        p = core.run_py(["-m", "harness.stellar_driver", jf], timeout=3000, env={"NUMBA_NUM_THREADS": "1", "OMP_NUM_THREADS": "1"})
+        if p.returncode != 0 or not os.path.exists(jf + ".out.json"):
+            raise MachineryError("stellar_driver failed: %s" % (p.stderr or "")[-1200:])
+        return json.load(open(jf + ".out.json"))
+    res = drive(groups)
+    for g in groups:
+        for b in g["behaviours"]:
+            ck.cov["traces_validated_against_impl"] += 1
+            for lab, st in b:
+                ck.case(("stellar", g["shape"], g["form"], json.dumps(lab), json.dumps(st, sort_keys=True)), nontrivial=lab[0] != "Init")
+    for v in res["results"]:
+        g = groups[v["group"]]
+        what = v["problems"][0][0]
+        ck.violation({"config": "stellar", "shape": v["shape"], "action": v["label"][0], "what": what.split("_")[0]},
+                     "stellar orbit (%s, %s values) after %s: %s (history: %s)" % (v["shape"], v["form"], v["label"], "; ".join("%s: %s" % (a, b[:160]) for a, b in v["problems"][:3]), v["prefix"]),
+                     {"kind": "stellar", "shape": v["shape"], "form": v["form"], "behaviour": g["behaviours"][v["behaviour"]][:v["step"] + 1], "problems": v["problems"]})
+    neg = drive([dict(groups[0], behaviours=[next(b for b in groups[0]["behaviours"] if any(x[0][0].startswith("SetStellar") and x[1] != y[1] for x, y in zip(b[1:], b)))])], sabotage=True)
+    if not neg["results"]:
+        raise MachineryError("stellar binding self-test failed: a skipped stellar setter went unnoticed")
+    ck.notes["stellar_part"] = {"behaviours": sum(len(g["behaviours"]) for g in groups), "steps_replayed": res["steps"],
+                                "shapes": sorted({"%s/%s" % (g["shape"], g["form"]) for g in groups}),
+                                "oracle": "getters vs the values of the state's ids; insolation vs equilibrium_insolation_func(L, d, albedo, R, e); surface temperature vs calc_equilibrium_temperature(insolation, R, internal heating, emissivity); rel. 1e-11",
+                                "negative_control": "a skipped stellar setter is reported (%s)" % neg["results"][0]["problems"][0][0]}
+    ck.assumptions.append("stellar side: sol/jupiter/io_simple (layered and global-approximation variants) and 55cnc/earth (star as host), three value ids per quantity, scalar and array values")
+
+
 def run(tier, seed, pid="C13"):
     ck = Check(pid, "model_checking", tier, seed)
     rng = random.Random(seed)
@@ -398,6 +466,7 @@ def run(tier, seed, pid="C13"):
     ck.notes["replayed_steps"] = nsteps
     if pid == "C13":
         layered_part(ck, tier, rng)
+        stellar_part(ck, tier, seed)
     if results:
         job, res = results[0]
         for b in job["behaviours"][:3]:
@@ -412,6 +481,14 @@ def run(tier, seed, pid="C13"):
 def replay(path):
     d = json.load(open(path))
     r = d["replay"]
+    if r.get("kind") == "stellar":
+        out = scratch("soreplay")
+        jf = os.path.join(out, "job.json")
+        json.dump({"groups": [{"shape": r["shape"], "form": r["form"], "behaviours": [r["behaviour"]]}]}, open(jf, "w"))
+        core.run_py(["-m", "harness.stellar_driver", jf], timeout=900)
+        res = json.load(open(jf + ".out.json"))
+        print(json.dumps(res, indent=1)[:3000])
+        return 1 if res["results"] else 0
     job = {"config": r["config"], "form": r["form"], "behaviours": [r["behaviour"]]}
     (job, res), = run_jobs([job])
     print(json.dumps(res["results"], indent=1)[:4000])
